@@ -149,6 +149,20 @@ LENGTH_STRATA = [0, 1, 2, 3, 7, 8, 9, 127, 128, 254, 255, 256, 257, 511, 512, 51
                  65279, 65280, 65281, 65534, 65535]
 
 
+def steer_checksum(c, i, pl, tgt):
+    """the payload with its last two bytes replaced so that the frame's checksum is the pair tgt"""
+    body = c + i + len(pl).to_bytes(2, "little") + pl[:-2] + b"\x00\x00"
+    a = b = 0
+    for x in body:
+        a = (a + x) % 256
+        b = (b + a) % 256
+    x = ((tgt[1] - b) - (tgt[0] - a)) % 256
+    y = ((tgt[0] - a) - x) % 256
+    out = pl[:-2] + bytes((x, y))
+    assert gen.frame(c, i, out)[-2:] == tgt
+    return out
+
+
 def strata_frames(ctx, lengths=None):
     """frames whose payload length sits on a byte / word boundary: undocumented id, INF-NOTICE (CH, any length),
     MON-VER and NAV-SAT when the length fits their group structure"""
@@ -171,6 +185,12 @@ def strata_frames(ctx, lengths=None):
             p = bytearray(pl); p[5] = (L - 8) // 12
             out.append((0, b"\x01", b"\x35", bytes(p)))                         # NAV-SAT
     if lengths is None:
+        # checksums that look like something else (CR LF, the sync pair, "$G", an RTCM lead-in, zeros): the last two
+        # payload bytes are solved so that the Fletcher sums come out as the wanted pair
+        for tgt in (b"\r\n", b"\n\n", b"\xb5\x62", b"$G", b"$P", b"\xd3\x00", b"\x00\x00", b"\xff\xff", b"  ", b"\x00\x0a", b"\x0d\x00"):
+            for mode, c, i, L in ((0, b"\x77", b"\x05", rng.choice([2, 3, 11])), (0, b"\x04", b"\x02", rng.choice([2, 9, 40])),
+                                  (1, b"\x06", b"\x08", 6), (0, b"\x01", b"\x07", 92), (2, b"\x06", b"\x01", 2)):
+                out.append((mode, c, i, steer_checksum(c, i, bytes(rng.getrandbits(8) for _ in range(L)), tgt)))
         # class / id / payload bytes that look like framing bytes of the three protocols (sync chars, '$', 0xd3, LF):
         # a frame is a frame whatever its content
         special = [0xb5, 0x62, 0x24, 0xd3, 0x0a, 0x00, 0xff]
@@ -1024,6 +1044,14 @@ NOISE_ALPHABET = bytes(b for b in range(256) if b not in (0xb5, 0x24, 0xd3))
 
 def nmea_frame(rng):
     kind = rng.random()
+    if kind < 0.03:
+        # a sentence far longer than the 82 characters of the standard (a legal GNTXT can be built that long): line
+        # assembly must not depend on any length it happens to assume
+        body = b"GNTXT,01,01,02," + bytes(rng.choice(b"ABCDEFGHIJKLMNOPQRSTUVWXYZ0123456789 ") for _ in range(rng.choice([1100, 1500, 4200, 9000])))
+        ck = 0
+        for x in body:
+            ck ^= x
+        return b"$" + body + b"*" + f"{ck:02X}".encode() + b"\r\n"
     if kind < 0.6:
         m = NMEAMessage("GN", "GLL", 0, lat=53.0 + rng.random(), NS="N", lon=2.0 + rng.random(), EW="W",
                         time="12:00:00", status="A", posMode="A")
